@@ -14,6 +14,7 @@ import (
 
 	remoteexecution "github.com/bazelbuild/remote-apis/build/bazel/remote/execution/v2"
 	"github.com/buildbarn/bb-remote-execution/pkg/filesystem/pool"
+	"github.com/buildbarn/bb-remote-execution/pkg/filesystem/virtual"
 	"github.com/buildbarn/bb-storage/pkg/blobstore/buffer"
 	"github.com/buildbarn/bb-storage/pkg/blobstore/slicing"
 	"github.com/buildbarn/bb-storage/pkg/digest"
@@ -85,6 +86,7 @@ type instrFile struct {
 	failTruncate atomic.Bool
 	failWrite    atomic.Bool // next WriteAt stores half and fails
 	failRead     atomic.Bool
+	failSeek     atomic.Bool
 
 	reads, writes, truncates atomic.Int64
 
@@ -215,13 +217,23 @@ func (f *instrFile) GetNextRegionOffset(off int64, regionType filesystem.RegionT
 	if !f.enter("GetNextRegionOffset") {
 		return 0, status.Error(codes.Internal, "verif: use after close")
 	}
+	if f.failSeek.CompareAndSwap(true, false) {
+		return 0, errInjected
+	}
 	f.mu.Lock()
 	defer f.mu.Unlock()
 	if off >= int64(len(f.data)) {
 		return 0, io.EOF
 	}
 	if regionType == filesystem.Data {
-		return off, nil
+		// A tail of null bytes counts as a hole at the end of the
+		// file: no more data.
+		for _, b := range f.data[off:] {
+			if b != 0 {
+				return off, nil
+			}
+		}
+		return 0, io.EOF
 	}
 	return int64(len(f.data)), nil
 }
@@ -453,4 +465,57 @@ func (g *detGenerator) Uint64() uint64 {
 	g.mu.Lock()
 	defer g.mu.Unlock()
 	return g.r.Uint64()
+}
+
+// routerCAS is the single BlobAccess a virtual build directory is
+// constructed with; it forwards to the fake CAS of the upload in progress
+// (stepped mode: at most one).
+type routerCAS struct {
+	mu  sync.Mutex
+	cur *fakeCAS
+}
+
+func (c *routerCAS) set(cas *fakeCAS) {
+	c.mu.Lock()
+	c.cur = cas
+	c.mu.Unlock()
+}
+
+func (c *routerCAS) get() *fakeCAS {
+	c.mu.Lock()
+	defer c.mu.Unlock()
+	return c.cur
+}
+
+func (c *routerCAS) GetCapabilities(ctx context.Context, instanceName digest.InstanceName) (*remoteexecution.ServerCapabilities, error) {
+	return nil, status.Error(codes.Unimplemented, "verif: not used")
+}
+
+func (c *routerCAS) Get(ctx context.Context, d digest.Digest) buffer.Buffer {
+	return buffer.NewBufferFromError(status.Error(codes.Unimplemented, "verif: not used"))
+}
+
+func (c *routerCAS) GetFromComposite(ctx context.Context, parentDigest, childDigest digest.Digest, slicer slicing.BlobSlicer) buffer.Buffer {
+	return buffer.NewBufferFromError(status.Error(codes.Unimplemented, "verif: not used"))
+}
+
+func (c *routerCAS) FindMissing(ctx context.Context, digests digest.Set) (digest.Set, error) {
+	return digests, nil
+}
+
+func (c *routerCAS) Put(ctx context.Context, d digest.Digest, b buffer.Buffer) error {
+	cas := c.get()
+	if cas == nil {
+		b.Discard()
+		return status.Error(codes.Internal, "verif: Put without an upload in progress")
+	}
+	return cas.Put(ctx, d, b)
+}
+
+// noHooksFileAllocator is what the root directory is created with before
+// InstallHooks provides the per-action file pool.
+type noHooksFileAllocator struct{}
+
+func (noHooksFileAllocator) NewFile(holeSource pool.HoleSource, isExecutable bool, size uint64, shareAccess virtual.ShareMask) (virtual.LinkableLeaf, error) {
+	return nil, status.Error(codes.FailedPrecondition, "verif: no hooks installed")
 }
